@@ -175,35 +175,59 @@ theorem compGE_seq (C : Ctx D) (B : Backend) (nm : Nat → String)
 
 /-! ## event-level scalars over aggregates -/
 
+/-- every aggregate of the expression, compiled from supply position `n` on, finds its token bound
+to its own container type and bank in the run's token table (vacuous unless the backend retrieves
+by token) -/
+def TokGE (B : Backend) (nm : Nat → String) (C : Ctx D) : GE → Nat → Prop
+  | .agg g, n => TokChain B nm C g.c (n + 1)
+  | .bin _ a b, n => TokGE B nm C a n ∧ TokGE B nm C b (compGE B nm a n).next
+  | .cmp _ a b, n => TokGE B nm C a n ∧ TokGE B nm C b (compGE B nm a n).next
+  | .neg a, n => TokGE B nm C a n
+  | .not a, n => TokGE B nm C a n
+  | .int _, _ => True
+  | .dbl _ _, _ => True
+  | .bool _, _ => True
+
+theorem tokGE_of_notToken {B : Backend} (h : B.how ≠ "token") (nm : Nat → String) (C : Ctx D) :
+    ∀ (e : GE) (n : Nat), TokGE B nm C e n
+  | .agg g, n => tokChain_of_notToken h nm C g.c _
+  | .bin _ a b, n => ⟨tokGE_of_notToken h nm C a n, tokGE_of_notToken h nm C b _⟩
+  | .cmp _ a b, n => ⟨tokGE_of_notToken h nm C a n, tokGE_of_notToken h nm C b _⟩
+  | .neg a, n => tokGE_of_notToken h nm C a n
+  | .not a, n => tokGE_of_notToken h nm C a n
+  | .int _, _ => trivial
+  | .dbl _ _, _ => trivial
+  | .bool _, _ => trivial
+
 /-- **event-level scalar expressions over general aggregates** -/
-theorem compGE_correct (C : Ctx D) (QC : QCtx D) (hN : QC.N = C.N) (hev : QC.ev = C.ev)
-    (B : Backend) (hB : BackendOK B) (nm : Nat → String)
+theorem compGE_correct_tok (C : Ctx D) (QC : QCtx D) (hN : QC.N = C.N) (hev : QC.ev = C.ev)
+    (B : Backend) (hB : BackendBase B) (nm : Nat → String)
     (hinj : ∀ i j, nm i = nm j → i = j) (hres : ∀ j, nm j ≠ "result")
     (hcollT : ∀ name, B.collType name = QC.collType name) :
-    ∀ (e : GE) (n : Nat) (s : St D) (v : Val D),
+    ∀ (e : GE) (n : Nat) (s : St D) (v : Val D), TokGE B nm C e n →
       DeclsDoneA C.N (compGE B nm e n).decls s.env →
       wtGE e = true → (∀ g ∈ aggsGE e, AggHyp QC g) →
       denote QC [("e", evtVal)] (geQ "e" e) = .ok v →
       ∃ s', execs C (compGE B nm e n).stmts s = .ok s' ∧ s'.rows = s.rows ∧
         evalE C.N s'.env (compGE B nm e n).val = .ok v ∧ HasTy v (tyGE e) ∧
         (∀ y, ¬ Touch nm n (compGE B nm e n).next y → s'.env y = s.env y)
-  | .int k, n, s, v, _, _, _, hden => by
+  | .int k, n, s, v, _, _, _, _, hden => by
     simp only [geQ, denote, Except.ok.injEq] at hden; subst hden
     exact ⟨s, by simp [compGE, execs], rfl, by simp [compGE, evalE], by simp [tyGE, HasTy], fun _ _ => rfl⟩
-  | .dbl m e, n, s, v, _, _, _, hden => by
+  | .dbl m e, n, s, v, _, _, _, _, hden => by
     simp only [geQ, denote, Except.ok.injEq] at hden; subst hden
     exact ⟨s, by simp [compGE, execs], rfl, by simp [compGE, evalE, hN], by simp [tyGE, HasTy], fun _ _ => rfl⟩
-  | .bool b, n, s, v, _, _, _, hden => by
+  | .bool b, n, s, v, _, _, _, _, hden => by
     simp only [geQ, denote, Except.ok.injEq] at hden; subst hden
     exact ⟨s, by simp [compGE, execs], rfl, by simp [compGE, evalE], by simp [tyGE, HasTy], fun _ _ => rfl⟩
-  | .agg g, n, s, v, hdone, hwt, hct, hden => by
+  | .agg g, n, s, v, htk, hdone, hwt, hct, hden => by
     simp only [wtGE, wtAggW, Bool.and_eq_true, Bool.or_eq_true] at hwt
     obtain ⟨hbase, hcase⟩ := hwt
     obtain ⟨hmt, hne⟩ := hct g (by simp [aggsGE])
     have hdone' : DeclsDoneA C.N (compAgg B nm g n).decls s.env := by simpa [compGE] using hdone
     have hden' : denote QC [("e", evtVal)] (aggQ "e" g) = .ok v := by simpa [geQ] using hden
     by_cases hex : aggExact g.seed.ty g.bodyTy = true
-    · simpa [compGE, tyGE] using agg_correct C QC hN hev B hB.base nm hinj hres hcollT g n (tokChain_of_notToken hB.notToken nm C g.c (n + 1)) s v hdone'
+    · simpa [compGE, tyGE] using agg_correct C QC hN hev B hB nm hinj hres hcollT g n htk s v hdone'
         (by simp [wtAgg, hbase, hex]) hmt hden'
     · have hwd : aggWiden g = true := by
         rcases hcase with h | h
@@ -212,9 +236,9 @@ theorem compGE_correct (C : Ctx D) (QC : QCtx D) (hN : QC.N = C.N) (hev : QC.ev 
       obtain ⟨ws, hchain, hfold⟩ := aggQ_denote QC g v hden'
       obtain ⟨cty, l, _, hfind, hel⟩ := chainQ_ok QC _ "e" g.c ws hchain
       have hwsne : ws ≠ [] := hne (by simpa using hex) cty l ws hfind hel
-      simpa [compGE, tyGE] using agg_widen_fold_correct C QC hN hev B hB.base nm hinj hres hcollT g n (tokChain_of_notToken hB.notToken nm C g.c (n + 1)) s ws v hdone'
+      simpa [compGE, tyGE] using agg_widen_fold_correct C QC hN hev B hB nm hinj hres hcollT g n htk s ws v hdone'
         hbase hwd hmt hchain hwsne hfold
-  | .bin op a b, n, s, v, hdone, hwt, hct, hden => by
+  | .bin op a b, n, s, v, htk, hdone, hwt, hct, hden => by
     simp only [wtGE, Bool.and_eq_true] at hwt
     obtain ⟨⟨⟨hwa, hwb⟩, hna⟩, hnb⟩ := hwt
     simp only [geQ, denote] at hden
@@ -232,19 +256,19 @@ theorem compGE_correct (C : Ctx D) (QC : QCtx D) (hN : QC.N = C.N) (hev : QC.ev 
         have hdone' : DeclsDoneA C.N ((compGE B nm a n).decls ++ (compGE B nm b (compGE B nm a n).next).decls) s.env := by
           simpa [compGE] using hdone
         have hta : HasTy va (tyGE a) := by
-          obtain ⟨_, _, _, _, h, _⟩ := compGE_correct C QC hN hev B hB nm hinj hres hcollT a n s va
+          obtain ⟨_, _, _, _, h, _⟩ := compGE_correct_tok C QC hN hev B hB nm hinj hres hcollT a n s va htk.1
             (fun d hd => hdone' d (by simp [hd])) hwa hcta hda
           exact h
         have htb : HasTy vb (tyGE b) := by
-          obtain ⟨_, _, _, _, h, _⟩ := compGE_correct C QC hN hev B hB nm hinj hres hcollT b (compGE B nm a n).next s vb
+          obtain ⟨_, _, _, _, h, _⟩ := compGE_correct_tok C QC hN hev B hB nm hinj hres hcollT b (compGE B nm a n).next s vb htk.2
             (fun d hd => hdone' d (by simp [hd])) hwb hctb hdb
           exact h
         obtain ⟨s2, hex, hrows, hva, hvb, hfr⟩ := compGE_seq C B nm hinj hres a b n s va vb hdone'
           (fun hd => by
-            obtain ⟨s1, h1, h2, h3, _, h5⟩ := compGE_correct C QC hN hev B hB nm hinj hres hcollT a n s va hd hwa hcta hda
+            obtain ⟨s1, h1, h2, h3, _, h5⟩ := compGE_correct_tok C QC hN hev B hB nm hinj hres hcollT a n s va htk.1 hd hwa hcta hda
             exact ⟨s1, h1, h2, h3, h5⟩)
           (fun s1 hd => by
-            obtain ⟨s2, h1, h2, h3, _, h5⟩ := compGE_correct C QC hN hev B hB nm hinj hres hcollT b _ s1 vb hd hwb hctb hdb
+            obtain ⟨s2, h1, h2, h3, _, h5⟩ := compGE_correct_tok C QC hN hev B hB nm hinj hres hcollT b _ s1 vb htk.2 hd hwb hctb hdb
             exact ⟨s2, h1, h2, h3, h5⟩)
         refine ⟨s2, by simpa [compGE] using hex, hrows, ?_, ?_, by simpa [compGE] using hfr⟩
         · by_cases hdiv : op = .div
@@ -278,7 +302,7 @@ theorem compGE_correct (C : Ctx D) (QC : QCtx D) (hN : QC.N = C.N) (hev : QC.ev 
             have := arith_num C.N op hdiv va vb _ _ hta htb hna hnb
             rw [hN] at hden
             exact this.2 v (by rw [this.1]; exact hden)
-  | .cmp op a b, n, s, v, hdone, hwt, hct, hden => by
+  | .cmp op a b, n, s, v, htk, hdone, hwt, hct, hden => by
     simp only [wtGE, Bool.and_eq_true] at hwt
     obtain ⟨⟨⟨hwa, hwb⟩, hna⟩, hnb⟩ := hwt
     simp only [geQ, denote] at hden
@@ -296,19 +320,19 @@ theorem compGE_correct (C : Ctx D) (QC : QCtx D) (hN : QC.N = C.N) (hev : QC.ev 
         have hdone' : DeclsDoneA C.N ((compGE B nm a n).decls ++ (compGE B nm b (compGE B nm a n).next).decls) s.env := by
           simpa [compGE] using hdone
         have hta : HasTy va (tyGE a) := by
-          obtain ⟨_, _, _, _, h, _⟩ := compGE_correct C QC hN hev B hB nm hinj hres hcollT a n s va
+          obtain ⟨_, _, _, _, h, _⟩ := compGE_correct_tok C QC hN hev B hB nm hinj hres hcollT a n s va htk.1
             (fun d hd => hdone' d (by simp [hd])) hwa hcta hda
           exact h
         have htb : HasTy vb (tyGE b) := by
-          obtain ⟨_, _, _, _, h, _⟩ := compGE_correct C QC hN hev B hB nm hinj hres hcollT b (compGE B nm a n).next s vb
+          obtain ⟨_, _, _, _, h, _⟩ := compGE_correct_tok C QC hN hev B hB nm hinj hres hcollT b (compGE B nm a n).next s vb htk.2
             (fun d hd => hdone' d (by simp [hd])) hwb hctb hdb
           exact h
         obtain ⟨s2, hex, hrows, hva, hvb, hfr⟩ := compGE_seq C B nm hinj hres a b n s va vb hdone'
           (fun hd => by
-            obtain ⟨s1, h1, h2, h3, _, h5⟩ := compGE_correct C QC hN hev B hB nm hinj hres hcollT a n s va hd hwa hcta hda
+            obtain ⟨s1, h1, h2, h3, _, h5⟩ := compGE_correct_tok C QC hN hev B hB nm hinj hres hcollT a n s va htk.1 hd hwa hcta hda
             exact ⟨s1, h1, h2, h3, h5⟩)
           (fun s1 hd => by
-            obtain ⟨s2, h1, h2, h3, _, h5⟩ := compGE_correct C QC hN hev B hB nm hinj hres hcollT b _ s1 vb hd hwb hctb hdb
+            obtain ⟨s2, h1, h2, h3, _, h5⟩ := compGE_correct_tok C QC hN hev B hB nm hinj hres hcollT b _ s1 vb htk.2 hd hwb hctb hdb
             exact ⟨s2, h1, h2, h3, h5⟩)
         rw [hN] at hden
         refine ⟨s2, by simpa [compGE] using hex, hrows, ?_, ?_, by simpa [compGE] using hfr⟩
@@ -316,7 +340,7 @@ theorem compGE_correct (C : Ctx D) (QC : QCtx D) (hN : QC.N = C.N) (hev : QC.ev 
           rw [evalE_bin_arith _ _ _ (cop_not_logic op).1 (cop_not_logic op).2]
           simp only [hva, hvb]; exact hden
         · simpa [tyGE] using cmp_num C.N op va vb _ _ hta htb hna hnb v hden
-  | .neg a, n, s, v, hdone, hwt, hct, hden => by
+  | .neg a, n, s, v, htk, hdone, hwt, hct, hden => by
     simp only [wtGE, Bool.and_eq_true] at hwt
     simp only [geQ, denote] at hden
     cases hda : denote QC [("e", evtVal)] (geQ "e" a) with
@@ -324,14 +348,14 @@ theorem compGE_correct (C : Ctx D) (QC : QCtx D) (hN : QC.N = C.N) (hev : QC.ev 
     | ok va =>
       rw [hda, hN] at hden
       simp only [] at hden
-      obtain ⟨s1, h1, h2, h3, h4, h5⟩ := compGE_correct C QC hN hev B hB nm hinj hres hcollT a n s va
+      obtain ⟨s1, h1, h2, h3, h4, h5⟩ := compGE_correct_tok C QC hN hev B hB nm hinj hres hcollT a n s va htk
         (by simpa [compGE] using hdone) hwt.1 (fun g hg => hct g (by simpa [aggsGE] using hg)) hda
       refine ⟨s1, by simpa [compGE] using h1, h2, by simp [compGE, evalE, h3, hden], ?_, by simpa [compGE] using h5⟩
       simp only [tyGE]
       rcases hasTy_num h4 hwt.2 with ⟨k, rfl, ht⟩ | ⟨y, rfl, ht⟩
       · simp [unop] at hden; subst hden; simp [ht, HasTy]
       · simp [unop] at hden; subst hden; rcases ht with h | h <;> simp [h, HasTy]
-  | .not a, n, s, v, hdone, hwt, hct, hden => by
+  | .not a, n, s, v, htk, hdone, hwt, hct, hden => by
     simp only [wtGE, Bool.and_eq_true, beq_iff_eq] at hwt
     simp only [geQ, denote] at hden
     cases hda : denote QC [("e", evtVal)] (geQ "e" a) with
@@ -339,12 +363,26 @@ theorem compGE_correct (C : Ctx D) (QC : QCtx D) (hN : QC.N = C.N) (hev : QC.ev 
     | ok va =>
       rw [hda, hN] at hden
       simp only [] at hden
-      obtain ⟨s1, h1, h2, h3, h4, h5⟩ := compGE_correct C QC hN hev B hB nm hinj hres hcollT a n s va
+      obtain ⟨s1, h1, h2, h3, h4, h5⟩ := compGE_correct_tok C QC hN hev B hB nm hinj hres hcollT a n s va htk
         (by simpa [compGE] using hdone) hwt.1 (fun g hg => hct g (by simpa [aggsGE] using hg)) hda
       refine ⟨s1, by simpa [compGE] using h1, h2, by simp [compGE, evalE, h3, hden], ?_, by simpa [compGE] using h5⟩
       simp only [tyGE]
       rw [hwt.2] at h4
       obtain ⟨b, rfl⟩ := hasTy_bool h4
       simp [unop, asBool] at hden; subst hden; simp [HasTy]
+
+/-- **event-level scalar expressions over general aggregates** (retrieval by bank name) -/
+theorem compGE_correct (C : Ctx D) (QC : QCtx D) (hN : QC.N = C.N) (hev : QC.ev = C.ev)
+    (B : Backend) (hB : BackendOK B) (nm : Nat → String)
+    (hinj : ∀ i j, nm i = nm j → i = j) (hres : ∀ j, nm j ≠ "result")
+    (hcollT : ∀ name, B.collType name = QC.collType name)
+    (e : GE) (n : Nat) (s : St D) (v : Val D)
+    (hdone : DeclsDoneA C.N (compGE B nm e n).decls s.env)
+    (hwt : wtGE e = true) (hct : ∀ g ∈ aggsGE e, AggHyp QC g)
+    (hden : denote QC [("e", evtVal)] (geQ "e" e) = .ok v) :
+    ∃ s', execs C (compGE B nm e n).stmts s = .ok s' ∧ s'.rows = s.rows ∧
+      evalE C.N s'.env (compGE B nm e n).val = .ok v ∧ HasTy v (tyGE e) ∧
+      (∀ y, ¬ Touch nm n (compGE B nm e n).next y → s'.env y = s.env y) :=
+  compGE_correct_tok C QC hN hev B hB.base nm hinj hres hcollT e n s v (tokGE_of_notToken hB.notToken nm C e n) hdone hwt hct hden
 
 end FaxVerif.Gen
